@@ -231,7 +231,7 @@ Qed.
 Theorem accepted_ok_tr_leaf x :
   tr_leaf_from_tree x = EOk -> obeys CTap (x_sum x) /\ obeys_parse CTap x.
 Proof.
-  unfold tr_leaf_from_tree. rewrite andthen_ok, lift_v_ok. intros [T V]. split.
+  unfold tr_leaf_from_tree. rewrite !andthen_ok, lift_v_ok. intros [[T V] _]. split.
   - apply consensus_sound; exact V.
   - apply from_tree_ok; exact T.
 Qed.
@@ -261,21 +261,19 @@ Definition x_ops_202 : expr :=
     (mkSum BB true true 1 false [mkNode KCheck [] 35; mkNode KPkK [key_c1] 34] 35
        (Some (mkSat 1 202 1))).
 
-(* the classes that remain on /repo 757bc686: or_i and d: inside sh(), more than 201 executed
-   opcodes in wsh()/sh(), and Tr::new, which looks at nothing in the leaf *)
+(* the classes that remain on /repo 6b65f152: or_i and d: inside sh(), more than 201 executed
+   opcodes in wsh()/sh() *)
 Theorem accepted_ok_wrappers_refuted :
   (wrapper_from_tree CLegacy x_or_i = EOk /\ wrapper_new CLegacy (x_sum x_or_i) = EOk /\
    ~ obeys CLegacy (x_sum x_or_i)) /\
   (wrapper_from_tree CLegacy x_dupif = EOk /\ ~ obeys CLegacy (x_sum x_dupif)) /\
   (wrapper_from_tree CSegwitv0 x_ops_202 = EOk /\ wrapper_new CSegwitv0 (x_sum x_ops_202) = EOk /\
-   ~ obeys CSegwitv0 (x_sum x_ops_202)) /\
-  (tr_new_leaf (x_sum x_pk_k) = EOk /\ ~ obeys CTap (x_sum x_pk_k)).
+   ~ obeys CSegwitv0 (x_sum x_ops_202)).
 Proof.
   repeat split; try (vm_compute; reflexivity).
   - intros [_ K _ _ _ _ _]. apply (K (mkNode KOrI [] 73)). simpl; auto.
   - intros [_ K _ _ _ _ _]. apply (K (mkNode KDupIf [] 6)). simpl; auto 10.
   - intros [_ _ _ _ _ O _]. vm_compute in O. apply O; reflexivity.
-  - intros [B _ _ _ _ _ _]. discriminate.
 Qed.
 
 Theorem desc_implies_ms_refuted :
@@ -325,6 +323,13 @@ Proof.
   destruct (top_level_type_check s) eqn:TT; [|discriminate]. intros _.
   apply top_level_type_check_ok; exact TT.
 Qed.
+
+(* a leaf handed to Tr::new: base type B and consistent multipath lengths; non-B leaves are refused *)
+Theorem tr_new_leaf_ok s : tr_new_leaf s = EOk ->
+  s_base s = BB /\ ~ multipath_mismatch (all_keys (s_nodes s)).
+Proof. exact (wrapper_new_ok CTap s). Qed.
+Lemma tr_new_leaf_rejects_nonB : tr_new_leaf (x_sum x_pk_k) = EErr (EpTop (TeNonBase BK)).
+Proof. vm_compute. reflexivity. Qed.
 
 Lemma vkeys_checked n k : In k (vkeys n) -> key_checked_kind (n_kind n) = true /\ In k (n_keys n).
 Proof. unfold vkeys, key_checked_kind. destruct (n_kind n); simpl; tauto. Qed.
@@ -390,7 +395,7 @@ Theorem desc_implies_ms_tr x :
   descriptor_from_str_inner CTap x = EOk -> ms_from_str_with CTap (ctx_consensus CTap) x = EOk.
 Proof.
   unfold descriptor_from_str_inner, tr_leaf_from_tree, ms_from_str_with.
-  rewrite andthen_ok. tauto.
+  rewrite !andthen_ok. tauto.
 Qed.
 
 (* non-vacuity: a script every entry point accepts *)
